@@ -18,6 +18,7 @@ import (
 
 type Effects struct {
 	W, R    map[string]bool
+	C       map[string]bool // fields whose pointee / map content is changed (the field itself keeps its value)
 	G       map[string]bool // ghost variables written (through contracts of callees)
 	LockOps map[string]bool // rwlocker methods applied to Server.mu
 	Calls   map[string]bool // static repo callees
@@ -26,7 +27,7 @@ type Effects struct {
 }
 
 func newEffects() *Effects {
-	return &Effects{W: map[string]bool{}, R: map[string]bool{}, G: map[string]bool{}, LockOps: map[string]bool{}, Calls: map[string]bool{}, Unknown: map[string]bool{}, Spawns: map[string]bool{}}
+	return &Effects{C: map[string]bool{}, W: map[string]bool{}, R: map[string]bool{}, G: map[string]bool{}, LockOps: map[string]bool{}, Calls: map[string]bool{}, Unknown: map[string]bool{}, Spawns: map[string]bool{}}
 }
 
 var mutatingMethods = map[string]bool{"Set": true, "Delete": true, "Clear": true, "Insert": true, "Load": true, "ReplaceOrInsert": true,
@@ -88,7 +89,17 @@ func (v *Verifier) directEffects(pkg *packages.Package, fd *ast.FuncDecl) *Effec
 	written := map[ast.Expr]bool{}
 	markWrite := func(l ast.Expr) {
 		if k := rootField(info, l); k != "" {
-			ef.W[k] = true
+			isMapElem := false
+			if ix, ok := l.(*ast.IndexExpr); ok {
+				if t := info.TypeOf(ix.X); t != nil {
+					_, isMapElem = t.Underlying().(*types.Map)
+				}
+			}
+			if isMapElem {
+				ef.C[k] = true
+			} else {
+				ef.W[k] = true
+			}
 		}
 		// the written selector itself is not a read
 		for {
@@ -195,7 +206,13 @@ func (v *Verifier) callEffects(info *types.Info, call *ast.CallExpr, ef *Effects
 	if id, ok := fun.(*ast.Ident); ok {
 		if b, ok := info.Uses[id].(*types.Builtin); ok {
 			switch b.Name() {
-			case "delete", "copy", "clear":
+			case "delete", "clear":
+				if len(call.Args) > 0 {
+					if k := rootField(info, call.Args[0]); k != "" {
+						ef.C[k] = true
+					}
+				}
+			case "copy":
 				if len(call.Args) > 0 {
 					if k := rootField(info, call.Args[0]); k != "" {
 						ef.W[k] = true
@@ -241,7 +258,7 @@ func (v *Verifier) callEffects(info *types.Info, call *ast.CallExpr, ef *Effects
 		if !isRepoPkg(fn.Pkg()) {
 			if recvField != "" {
 				if mutatingMethods[fn.Name()] {
-					ef.W[recvField] = true
+					ef.C[recvField] = true
 				}
 			}
 			if c := v.specs.Contracts[typesFuncKey(fn)]; c != nil {
@@ -274,8 +291,12 @@ func (v *Verifier) callEffects(info *types.Info, call *ast.CallExpr, ef *Effects
 func (v *Verifier) computeEffects() {
 	v.effects = map[string]*Effects{}
 	byName := map[string][]string{} // method name -> keys (for interface resolution)
+	v.assignedIn = map[string][]string{}
 	for k, fd := range v.funcs {
 		v.effects[k] = v.directEffects(v.funcPkg[k], fd)
+		for f := range v.effects[k].W {
+			v.assignedIn[f] = append(v.assignedIn[f], k)
+		}
 		if fd.Recv != nil {
 			byName[fd.Name.Name] = append(byName[fd.Name.Name], k)
 		}
@@ -319,6 +340,7 @@ func (v *Verifier) computeEffects() {
 						}
 					}
 					merge(ef.W, ce.W)
+					merge(ef.C, ce.C)
 					merge(ef.R, ce.R)
 					merge(ef.G, ce.G)
 					merge(ef.LockOps, ce.LockOps)
@@ -369,5 +391,17 @@ func (v *Verifier) effectSummary(key string) string {
 	if ef == nil {
 		return "no effects computed"
 	}
-	return fmt.Sprintf("writes%v reads%v ghosts%v lock%v", v.regionsOf(ef.W), v.regionsOf(ef.R), sortedKeys(ef.G), sortedKeys(ef.LockOps))
+	return fmt.Sprintf("writes%v reads%v ghosts%v lock%v", v.regionsOf(ef.allWrites()), v.regionsOf(ef.R), sortedKeys(ef.G), sortedKeys(ef.LockOps))
+}
+
+// allWrites: fields assigned or whose content is changed
+func (ef *Effects) allWrites() map[string]bool {
+	m := make(map[string]bool, len(ef.W)+len(ef.C))
+	for k := range ef.W {
+		m[k] = true
+	}
+	for k := range ef.C {
+		m[k] = true
+	}
+	return m
 }
